@@ -1,4 +1,5 @@
 import H2V.Model.ConnStreams
+import H2V.Lemmas.ConnResetPAttr
 /-
   ConnResetP — base layer: the store (`get?` / `set` / `remove` / `insert`), the primitive state
   transformers of `Streams` (`panic`, `wake`, `modStream`, `modStreamW`, `modPrio`, …) and the six
@@ -122,7 +123,7 @@ theorem Store.get?_insert (st : Store) (x : Stream) (k : Nat) (hf : Store.KeysFr
 section prim
 variable (s : Streams)
 
-@[simp] theorem panic_store (m : String) : (s.panic m).store = s.store := by unfold Streams.panic; split <;> rfl
+@[simp, crp_store] theorem panic_store (m : String) : (s.panic m).store = s.store := by unfold Streams.panic; split <;> rfl
 @[simp] theorem panic_counts (m : String) : (s.panic m).counts = s.counts := by unfold Streams.panic; split <;> rfl
 @[simp] theorem panic_actions (m : String) : (s.panic m).actions = s.actions := by unfold Streams.panic; split <;> rfl
 @[simp] theorem panic_refs (m : String) : (s.panic m).refs = s.refs := by unfold Streams.panic; split <;> rfl
@@ -130,18 +131,18 @@ variable (s : Streams)
 @[simp] theorem panic_unsupported (m : String) : (s.panic m).unsupported = s.unsupported := by unfold Streams.panic; split <;> rfl
 @[simp] theorem panic_leaked (m : String) : (s.panic m).recvBufferLeaked = s.recvBufferLeaked := by unfold Streams.panic; split <;> rfl
 
-@[simp] theorem unsup_store (m : String) : (s.unsup m).store = s.store := by unfold Streams.unsup; split <;> rfl
+@[simp, crp_store] theorem unsup_store (m : String) : (s.unsup m).store = s.store := by unfold Streams.unsup; split <;> rfl
 @[simp] theorem unsup_counts (m : String) : (s.unsup m).counts = s.counts := by unfold Streams.unsup; split <;> rfl
 @[simp] theorem unsup_actions (m : String) : (s.unsup m).actions = s.actions := by unfold Streams.unsup; split <;> rfl
 @[simp] theorem unsup_panicked (m : String) : (s.unsup m).panicked = s.panicked := by unfold Streams.unsup; split <;> rfl
 
-@[simp] theorem wake_store (t : List String) : (s.wake t).store = s.store := rfl
+@[simp, crp_store] theorem wake_store (t : List String) : (s.wake t).store = s.store := rfl
 @[simp] theorem wake_counts (t : List String) : (s.wake t).counts = s.counts := rfl
 @[simp] theorem wake_actions (t : List String) : (s.wake t).actions = s.actions := rfl
 @[simp] theorem wake_panicked (t : List String) : (s.wake t).panicked = s.panicked := rfl
 @[simp] theorem wake_refs (t : List String) : (s.wake t).refs = s.refs := rfl
 
-@[simp] theorem notifyTask_store : s.notifyTask.store = s.store := by unfold Streams.notifyTask; split <;> rfl
+@[simp, crp_store] theorem notifyTask_store : s.notifyTask.store = s.store := by unfold Streams.notifyTask; split <;> rfl
 @[simp] theorem notifyTask_counts : s.notifyTask.counts = s.counts := by unfold Streams.notifyTask; split <;> rfl
 @[simp] theorem notifyTask_panicked : s.notifyTask.panicked = s.panicked := by unfold Streams.notifyTask; split <;> rfl
 @[simp] theorem notifyTask_refs : s.notifyTask.refs = s.refs := by unfold Streams.notifyTask; split <;> rfl
@@ -152,7 +153,7 @@ variable (s : Streams)
 @[simp] theorem notifyTask_prio : s.notifyTask.prio = s.prio := by unfold Streams.prio; simp
 @[simp] theorem notifyTask_recv' : s.notifyTask.recv = s.recv := by unfold Streams.recv; simp
 
-@[simp] theorem modPrio_store (f : Prioritize → Prioritize) : (s.modPrio f).store = s.store := rfl
+@[simp, crp_store] theorem modPrio_store (f : Prioritize → Prioritize) : (s.modPrio f).store = s.store := rfl
 @[simp] theorem modPrio_counts (f : Prioritize → Prioritize) : (s.modPrio f).counts = s.counts := rfl
 @[simp] theorem modPrio_panicked (f : Prioritize → Prioritize) : (s.modPrio f).panicked = s.panicked := rfl
 @[simp] theorem modPrio_refs (f : Prioritize → Prioritize) : (s.modPrio f).refs = s.refs := rfl
@@ -160,14 +161,14 @@ variable (s : Streams)
 @[simp] theorem modPrio_recv (f : Prioritize → Prioritize) : (s.modPrio f).recv = s.recv := rfl
 @[simp] theorem modPrio_connError (f : Prioritize → Prioritize) : (s.modPrio f).actions.connError = s.actions.connError := rfl
 
-@[simp] theorem modSend_store (f : Send → Send) : (s.modSend f).store = s.store := rfl
+@[simp, crp_store] theorem modSend_store (f : Send → Send) : (s.modSend f).store = s.store := rfl
 @[simp] theorem modSend_counts (f : Send → Send) : (s.modSend f).counts = s.counts := rfl
 @[simp] theorem modSend_panicked (f : Send → Send) : (s.modSend f).panicked = s.panicked := rfl
 @[simp] theorem modSend_refs (f : Send → Send) : (s.modSend f).refs = s.refs := rfl
 @[simp] theorem modSend_send (f : Send → Send) : (s.modSend f).actions.send = f s.actions.send := rfl
 @[simp] theorem modSend_recv (f : Send → Send) : (s.modSend f).recv = s.recv := rfl
 
-@[simp] theorem modRecv_store (f : Recv → Recv) : (s.modRecv f).store = s.store := rfl
+@[simp, crp_store] theorem modRecv_store (f : Recv → Recv) : (s.modRecv f).store = s.store := rfl
 @[simp] theorem modRecv_counts (f : Recv → Recv) : (s.modRecv f).counts = s.counts := rfl
 @[simp] theorem modRecv_panicked (f : Recv → Recv) : (s.modRecv f).panicked = s.panicked := rfl
 @[simp] theorem modRecv_refs (f : Recv → Recv) : (s.modRecv f).refs = s.refs := rfl
@@ -175,7 +176,7 @@ variable (s : Streams)
 @[simp] theorem modRecv_prio (f : Recv → Recv) : (s.modRecv f).prio = s.prio := rfl
 @[simp] theorem modRecv_send (f : Recv → Recv) : (s.modRecv f).actions.send = s.actions.send := rfl
 
-@[simp] theorem modCounts_store (f : Counts → Counts) : (s.modCounts f).store = s.store := rfl
+@[simp, crp_store] theorem modCounts_store (f : Counts → Counts) : (s.modCounts f).store = s.store := rfl
 @[simp] theorem modCounts_counts (f : Counts → Counts) : (s.modCounts f).counts = f s.counts := rfl
 @[simp] theorem modCounts_actions (f : Counts → Counts) : (s.modCounts f).actions = s.actions := rfl
 @[simp] theorem modCounts_panicked (f : Counts → Counts) : (s.modCounts f).panicked = s.panicked := rfl
@@ -183,7 +184,7 @@ variable (s : Streams)
 @[simp] theorem modCounts_prio (f : Counts → Counts) : (s.modCounts f).prio = s.prio := rfl
 @[simp] theorem modCounts_recv (f : Counts → Counts) : (s.modCounts f).recv = s.recv := rfl
 
-@[simp] theorem modCountsA_store (w : String) (f : Counts → Option Counts) : (s.modCountsA w f).store = s.store := by
+@[simp, crp_store] theorem modCountsA_store (w : String) (f : Counts → Option Counts) : (s.modCountsA w f).store = s.store := by
   unfold Streams.modCountsA; split <;> simp
 @[simp] theorem modCountsA_actions (w : String) (f : Counts → Option Counts) : (s.modCountsA w f).actions = s.actions := by
   unfold Streams.modCountsA; split <;> simp
@@ -211,6 +212,22 @@ variable (s : Streams)
 theorem setStream_get? (x : Stream) (k : Nat) :
     (s.setStream x).store.get? k = if k = x.key then (s.store.get? k).map (fun _ => x) else s.store.get? k :=
   Store.get?_set _ _ _
+
+/-- `modStream` seen from the store: replace the entry of `id` by its image, nothing on a dangling key -/
+def Store.mod (st : Store) (id : Nat) (f : Stream → Stream) : Store :=
+  match st.get? id with
+  | some x => st.set (f x)
+  | none => st
+
+@[simp, crp_store] theorem setStream_store (x : Stream) : (s.setStream x).store = s.store.set x := rfl
+
+@[simp, crp_store] theorem modStream_store (id : Nat) (f : Stream → Stream) :
+    (s.modStream id f).store = Store.mod s.store id f := by
+  unfold Streams.modStream Store.mod; cases h : s.store.get? id <;> simp
+
+@[simp, crp_store] theorem modStreamW_store (id : Nat) (f : Stream → Stream × List String) :
+    (s.modStreamW id f).store = Store.mod s.store id (fun st => (f st).1) := by
+  unfold Streams.modStreamW Store.mod; cases h : s.store.get? id <;> simp
 
 @[simp] theorem modStream_counts (id : Nat) (f : Stream → Stream) : (s.modStream id f).counts = s.counts := by
   unfold Streams.modStream; split <;> simp
